@@ -84,6 +84,12 @@ def main():
         bl = blocks(notes)
         title = notes.splitlines()[0].lstrip('# ').strip() if notes else sid
         rc = json.load(open(os.path.join(d, 'reconfirm.json'))) if os.path.exists(os.path.join(d, 'reconfirm.json')) else None
+        if rc is None and os.path.exists(os.path.join(d, 'confirm.json')):
+            # round 4: confirmed once by tools/confirm_seed.sh (same procedure) against the HEAD the agents' worktrees were made from
+            c = json.load(open(os.path.join(d, 'confirm.json')))
+            rc = dict(seed=sid, repo_head=c.get('repo_head', '6de17ea'), patch='patch.diff', demo_clean_rc=c['demo_clean_rc'],
+                      apply_rc=c['apply_rc'], demo_patched_rc=c['demo_patched_rc'], tests_patched_rc=c['tests_patched_rc'],
+                      tests_tail=c['tests_tail'], confirmed=c['confirmed'])
         ver, head = verdicts(os.path.join(d, 'check_result.txt'))
         caught_by = {}
         for p, lines in ver.items():
